@@ -32,7 +32,7 @@ namespace AIToolbox::MDP {
     double HystereticQLearning::getNegativeLearningRate() const { return beta_; }
 
     void HystereticQLearning::setDiscount(const double d) {
-        if ( d <= 0.0 || d > 1.0 ) throw std::invalid_argument("Discount parameter must be in (0,1]");
+        if ( !(d > 0.0 && d <= 1.0) ) throw std::invalid_argument("Discount parameter must be in (0,1]");
         discount_ = d;
     }
 
